@@ -216,7 +216,7 @@ where
                         MIN_REQUIRED
                     };
                     if remaining < req {
-                        *state = DecoderState::ReadingAddressedHeader(flags);
+                        *state = DecoderState::ReadingRegistration(flags);
                         break Ok(None);
                     }
                     let mut bytes = src.as_ref();
@@ -231,8 +231,13 @@ where
                     let node_len = bytes.get_u64() as usize;
                     let lane_len = bytes.get_u64() as usize;
 
-                    if bytes.remaining() < host_len + node_len + lane_len + ID_LEN {
-                        *state = DecoderState::ReadingAddressedHeader(flags);
+                    if bytes.remaining()
+                        < host_len
+                            .saturating_add(node_len)
+                            .saturating_add(lane_len)
+                            .saturating_add(ID_LEN)
+                    {
+                        *state = DecoderState::ReadingRegistration(flags);
                         break Ok(None);
                     }
                     let host = if has_host {
@@ -284,7 +289,7 @@ where
                     let node_len = bytes.get_u64() as usize;
                     let lane_len = bytes.get_u64() as usize;
 
-                    if bytes.remaining() < host_len + node_len + lane_len {
+                    if bytes.remaining() < host_len.saturating_add(node_len).saturating_add(lane_len) {
                         *state = DecoderState::ReadingAddressedHeader(flags);
                         break Ok(None);
                     }
